@@ -236,7 +236,10 @@ func judge(rec *fw.Rec, cd *caseDesc, spec *core.Spec, deadline bool) bool {
 		return false
 	}
 	rec.Eval(1)
-	if res1 != res2 {
+	// Under a deadline that has already expired, a terminating script may either complete
+	// or time out (both are legitimate), so repeated results are compared only for cases
+	// that run without a deadline.
+	if res1 != res2 && !deadline {
 		rec.Violation("C06:repeat-differs:"+cd.Op, fmt.Sprintf("a second identical call gave a different result:\n first: %s\nsecond: %s", fw.Short(res1), fw.Short(res2)), cd)
 		return false
 	}
